@@ -172,6 +172,7 @@ def step (st : DState2) (line : String) : DState2 × String :=
   | "mpd" :: args => (st, opMpd st args)
   | "cfg" :: args => (st, opCfg args)
   | "cons" :: args => (st, opCons args)
+  | "loadtab" :: args => (st, opLoadtab args)
   | "req" :: args => (st, opReq args)
   | "kid" :: args => (st, opKeys "kid" args)
   | "k2k" :: args => (st, opKeys "k2k" args)
